@@ -1548,21 +1548,28 @@ def check_c19_enc(scn):
                     c.timestamp = c.timestamp + timedelta(microseconds=sub[k % len(sub)])
         return cs
 
+    rm = scn.get("remove_at")   # [step, member index]: remove_indicator after that step - the timeframe it was on stays held and fed
+
+    def maybe_remove(o, step):
+        if rm and target == "hexital" and rm[0] == step:
+            names_ = [member_name(m) for m in scn["members"]]
+            o.remove_indicator(names_[rm[1] % len(names_)])
+
     try:
         ref = _build_target(scn, mk_rows(0, init))
         ref_states = []
-        if sub:
-            ref.calculate()
-            ref_states.append(_state(ref, target, True))
-            for a, b in steps_of(scn)[1:]:
-                ref.append(mk_rows(a, b))
-                ref_states.append(_state(ref, target, True))
-        else:
-            _drive(ref, scn, lambda j, consumed: ref_states.append(_state(ref, target)))
+        ref.calculate()
+        maybe_remove(ref, 0)
+        ref_states.append(_state(ref, target, bool(sub)))
+        for j, (a, b) in enumerate(steps_of(scn)[1:]):
+            ref.append(mk_rows(a, b))
+            maybe_remove(ref, j + 1)
+            ref_states.append(_state(ref, target, bool(sub)))
     except Exception as e:
         return {"skip": f"reference raises {type(e).__name__}"}
     obj = _build_target(scn, mk_rows(0, init))
     obj.calculate()
+    maybe_remove(obj, 0)
     for j, (a, b) in enumerate(steps_of(scn)[1:]):
         enc, single = encs[j % len(encs)]
         payload = encode_chunk(stream[a:b], enc, single, stamps=[c.timestamp for c in mk_rows(a, b)] if sub else None)
@@ -1582,6 +1589,7 @@ def check_c19_enc(scn):
                 "Candle.from_dict:caller-dict-mutated" if enc.startswith("dict") else f"{who}.append:caller-candle-list-mutated")
             return {"clause": "caller-input-unchanged", "step": j + 1, "encoding": enc, "single": single, "observed": _short(payload),
                     "expected": _short(keep), "signature": f"C19:{fam}"}
+        maybe_remove(obj, j + 1)
         got_c, got_r = _state(obj, target, bool(sub))
         exp_c, exp_r = ref_states[j + 1]
         fam = enc.split("_")[0]
@@ -1625,6 +1633,8 @@ def gen_c19_enc(rng, size=30):
         encs = [[rng.choice(pool), rng.random() < 0.6] for _ in chunks]
     scn = {"check": "c19.enc", "target": target, "hx": cfg, "members": members, "keep_members": True, "stream": stream,
            "init": init, "chunks": chunks, "encs": encs}
+    if target == "hexital" and len(members) >= 1 and rng.random() < 0.25:
+        scn["remove_at"] = [rng.randrange(len(chunks)), rng.randrange(len(members))]
     if with_ts and rng.random() < 0.25:
         # stamps with a sub-second part (the same in every encoding): a string and a datetime carrying it are the same candle data
         scn["subsec"] = [rng.choice([0, 250000, 999999, 1, 500000]) for _ in range(rng.randint(1, 4))]
